@@ -966,6 +966,8 @@ def _handover_recreated(db, rule):
                                         tested = True
                                 elif member_of(f, c2) == m and p2:
                                     tested = True
+                                elif c2['k'] == 'CXXMemberCallExpr' and (c2.get('cs') or '').split('::')[-1] == 'operator bool' and 'obj' in c2 and member_of(f, f.stmts[c2['obj']]) == m and p2:
+                                    tested = True
                         if not tested:
                             bad = bad or (c, 'a path from the entry reaches `%s` without creating `%s` anew and without testing it' % ((c.get('txt') or '')[:60], m))
                             break
